@@ -189,7 +189,7 @@ impl Prop for Faulted {
     }
 }
 
-const ENUM_RULE: &str = "deterministic single-fault grid on the bundled voice and 20 fixed generated voices: every header number x 11 replacements; every header line deleted and duplicated; the values of every two range-holding header lines exchanged; truncation at every section/block boundary +-1; every single-character substitution (17 structural characters and the 8 one-bit errors) at every position of the header, tree and window text (header only on the bundled voice); on generated voices every pair (one header number -> 0, another one -> value+-1) and every compensating pair (one -> value-1, another -> value+1); plus the unmodified file (must load). Non-trivial: loader returned Err; distinct by (base, fault)";
+const ENUM_RULE: &str = "deterministic single-fault grid on the bundled voice and 20 fixed generated voices: every header number x 11 replacements; every header line deleted and duplicated; the values of every two range-holding header lines exchanged; truncation at every section/block boundary +-1; every single-character substitution (17 structural characters and the 8 one-bit errors) at every position of the header, tree and window text (header only on the bundled voice); on generated voices every pair (one header number -> 0, another one -> value+-1 or 1) and every compensating pair (one -> value-1, another -> value+1); plus the unmodified file (must load). Non-trivial: loader returned Err; distinct by (base, fault)";
 
 fn eval_enum_case(base: usize, desc: &str, bytes: &[u8], must_load: bool) -> Result<LoadOutcome, Failure> {
     note_inflight(&json!({ "kind": "enum", "base": base, "fault": desc }), bytes);
@@ -397,11 +397,12 @@ fn extra(s: &mut Session) {
         let bytes = base_voice(base);
         let Some(idx) = index_voice(&bytes) else { continue };
         let n = idx.numbers.len();
-        // (first number, second number, replacement of the second): the first becomes 0; with the
+        // (first number, second number, replacement of the second - +1, -1 or the constant 1, which
+        // turns a range into the empty `1-0`): the first becomes 0; with the
         // marker 13 the first becomes value-1 while the second becomes value+1 (a COMPENSATING pair:
         // products such as vector length x windows stay intact while the factors disagree with the
         // rest of the file)
-        let jobs: Vec<(usize, usize, usize)> = (0..n).flat_map(|i| (0..n).filter(move |j| *j != i).flat_map(move |j| [(i, j, 2usize), (i, j, 3usize), (i, j, 13usize)])).collect();
+        let jobs: Vec<(usize, usize, usize)> = (0..n).flat_map(|i| (0..n).filter(move |j| *j != i).flat_map(move |j| [(i, j, 2usize), (i, j, 3usize), (i, j, 13usize), (i, j, 1usize)])).collect();
         let build = |j: &(usize, usize, usize)| -> Vec<u8> {
             // replace the later token first so that the earlier token's offsets stay valid
             let (zero, moved, r) = *j;
@@ -414,7 +415,7 @@ fn extra(s: &mut Session) {
                 replace_number(&b, &idx.numbers[zero], r_first)
             }
         };
-        let desc_of = |j: &(usize, usize, usize)| if j.2 == 13 { format!("number#{}->value-1 + number#{}->value+1", j.0, j.1) } else { format!("number#{}->0 + number#{}->value{}", j.0, j.1, if j.2 == 2 { "+1" } else { "-1" }) };
+        let desc_of = |j: &(usize, usize, usize)| if j.2 == 13 { format!("number#{}->value-1 + number#{}->value+1", j.0, j.1) } else { format!("number#{}->0 + number#{}->{}", j.0, j.1, match j.2 { 2 => "value+1", 3 => "value-1", _ => "1" }) };
         let nthreads = std::thread::available_parallelism().map(|n| n.get()).unwrap_or(4).min(16);
         let chunk = jobs.len().div_ceil(nthreads).max(1);
         let results: Vec<Vec<Result<LoadOutcome, Failure>>> = std::thread::scope(|sc| {
